@@ -156,8 +156,9 @@ def check(site, d, nm, name):
             return verdict(False, name, site=site, d=d, nm=nm)
     stmt = build(site, d, nm)
     out = stmt.get_sql(dctx(d))
-    if site in (32, 33) and not (str(stmt) == out):
-        # str() of a set operation starts from the default context: it must still follow the base query's dialect
+    if site in (23, 24, 25, 26, 27, 32, 33) and not (str(stmt) == out):
+        # str() of a set operation / DDL statement starts from the default context: it must still follow the dialect of
+        # the class the statement was started from
         note("sql", str(stmt))
         note("expected", out)
         return verdict(False, name, site=site, d=d, nm=nm)
